@@ -23,7 +23,8 @@ pub fn explore(opts: &Opts) -> Explored {
             }
         }
     }
-    let variants: Vec<u64> = if IS_F32 { vec![opts.seed % 3, (opts.seed + 1) % 3, 3, 4, 5] } else { vec![opts.seed % 3, (opts.seed + 1) % 3, 3, 4, 5, 6] };
+    // 7 and 8: positive valuations whose products resp. sums overflow (compared with `cmp_slice_inf`)
+    let variants: Vec<u64> = if IS_F32 { vec![opts.seed % 3, (opts.seed + 1) % 3, 3, 4, 5, 7, 8] } else { vec![opts.seed % 3, (opts.seed + 1) % 3, 3, 4, 5, 6, 7, 8] };
     let local = par(opts, space.len(), |i, l| {
         let c = &space[i];
         l.states += 1;
@@ -32,9 +33,10 @@ pub fn explore(opts: &Opts) -> Explored {
             if !l.want(&case) {
                 continue;
             }
-            let av = vals(numel(&c.a), 0, var);
-            let bv = vals(numel(&c.b), 1, var);
-            let cv = c.c.as_ref().map(|d| vals(numel(d), 2, var));
+            let val = |n: usize, salt: usize| if var >= 7 { vals_overflow(n, salt, var - 7) } else { vals(n, salt, var) };
+            let av = val(numel(&c.a), 0);
+            let bv = val(numel(&c.b), 1);
+            let cv = c.c.as_ref().map(|d| val(numel(d), 2));
             let ra = T::from_f64(c.a.clone(), &av);
             let rb = T::from_f64(c.b.clone(), &bv);
             let rc = c.c.as_ref().map(|d| T::from_f64(d.clone(), cv.as_ref().unwrap()));
@@ -43,7 +45,7 @@ pub fn explore(opts: &Opts) -> Explored {
             if let Some(rc) = &rc {
                 rargs.push(rc);
             }
-            let expect = apply_ref(&op, &rargs);
+            let expect = if var >= 7 { apply_ref_raw(&op, &rargs) } else { apply_ref(&op, &rargs) };
             if let Err(RErr::Unspecified) | Err(RErr::Domain) = expect {
                 l.count("skipped_unspecified");
                 continue;
@@ -87,8 +89,11 @@ pub fn explore(opts: &Opts) -> Explored {
                     l.outcome(digest_vals(d, v));
                     if d != &r.dims {
                         l.violation("product", case(), format!("dimensions {:?}, reference {:?}", d, r.dims));
-                    } else if let Err(e) = cmp_slice(v, &r.x, Part::Value) {
+                    } else if let Err(e) = if var >= 7 { cmp_slice_inf(v, &r.x, Part::Value) } else { cmp_slice(v, &r.x, Part::Value) } {
                         l.violation("product", case(), e);
+                    }
+                    if var >= 7 && r.x.iter().any(|d| d.v.is_infinite()) {
+                        l.count("overflowing_results");
                     }
                 }
             }
